@@ -316,8 +316,9 @@ class ShareableThreadLock:
                 self._acquired_by[thread_id] -= 1
                 if not self._acquired_by[thread_id]:
                     del self._acquired_by[thread_id]  # NOTE: GC
-                    if not self._acquired_by:
-                        self._condition.notify_all()
+                    # NOTE: A waiting thread ignores its own shared holds, so it
+                    # may be able to proceed although other entries remain.
+                    self._condition.notify_all()
             finally:
                 self._condition.release()
 
